@@ -68,6 +68,12 @@ void model_send(struct iauth_request *req, const char *fmt, const void *a0, cons
     }
 }
 
+void model_send_nums(const char *fmt, const unsigned long *nums)
+{
+    G.bfmt = fmt;
+    G.bnum[0] = nums[0]; G.bnum[1] = nums[1]; G.bnum[2] = nums[2]; G.bnum[3] = nums[3];
+}
+
 void model_x_query(const char *server, const char *routing, const char *fmt,
                           const void *a0, const void *a1, const void *a2, const void *a3, const void *a4)
 {
